@@ -91,8 +91,22 @@ def hostile_pass(pid, a):
         with open(main_path, "w") as f:
             json.dump(md, f, indent=1)
     except Exception as e:  # noqa: BLE001
-        print(f"INTERNAL-ERROR: optimised-interpreter pass left no evidence ({e!r})")
-        rc = 2
+        if rc == 1:
+            # the library raised outside any guarded case in that pass (reported above with its own VIOLATION line): no coverage figures
+            # exist for it, the verdict stands
+            try:
+                with open(main_path) as f:
+                    md = json.load(f)
+                md["coverage"]["hostile_environment_pass"] = {"interpreter_flags": "-O -X dev -W error", "tier_bounds": "quick", "exit_code": 1,
+                                                              "note": "the library raised on an in-domain input outside any guarded case; see the replay file of the VIOLATION line"}
+                md["violations"] = md.get("violations", 0) + 1
+                with open(main_path, "w") as f:
+                    json.dump(md, f, indent=1)
+            except Exception:  # noqa: BLE001
+                pass
+        else:
+            print(f"INTERNAL-ERROR: hostile-environment pass left no evidence ({e!r})")
+            rc = 2
     finally:
         shutil.rmtree(odir, ignore_errors=True)
     return rc
@@ -137,7 +151,13 @@ def main():
     except Exception as e:
         traceback.print_exc()
         tb = traceback.extract_tb(e.__traceback__)
-        inner = tb[-1].filename if tb else ""
+        # innermost frame that belongs to the library or to the harness (frames of the standard library / third-party packages that the
+        # library called into are skipped: a warning-turned-error or a codec lookup raised *for* the library)
+        inner = ""
+        for fr in reversed(tb):
+            if "/okdmr/" in fr.filename or "/verif/" in fr.filename:
+                inner = fr.filename
+                break
         worker_in_lib = getattr(e, "in_library", False)
         if worker_in_lib or ("/okdmr/" in inner and "/verif/" not in inner):
             # the exception was raised *inside the library* while the harness was preparing or running cases on inputs the
